@@ -1,6 +1,7 @@
 import Hive.Proofs.WorkerPoolLog
 import Hive.Proofs.WorkerPoolGroup
 import Hive.Proofs.WorkerPoolTerm
+import Hive.Gen.C16_Skel
 import Hive.Model.WorkerPoolSched
 /-!
 # C16 — WorkerPool conserves tasks and always shuts down
@@ -294,3 +295,95 @@ theorem C16_group_example :
   decide
 
 end Hive.WPG
+
+/-! ### Regenerated tie: the synchronisation skeletons the protocol model was written against
+
+`Hive/Gen/C16_Skel.lean` is regenerated from runtime/workerpool and runtime/syncutils on every run; the
+model's atomic steps (Hive/Model/WorkerPool.lean) follow exactly these sequences of lock / channel /
+condition / WaitGroup operations.  A change of the code's synchronisation structure breaks these
+obligations even when no stress schedule hits the difference. -/
+namespace Hive.WP
+open Hive.Gen.C16Skel
+
+theorem C16_skeleton_WorkerPool_Start : skel_WorkerPool_Start =
+    ["call w.IsRunning", "if{", "call w.ShutdownComplete.Wait", "}if", "lock w.mutex",
+     "defer unlock w.mutex", "if{", "call w.ShutdownComplete.Wait", "helper startDispatcher",
+     "helper startWorkers", "}if", "return"] := by decide
+
+theorem C16_skeleton_WorkerPool_Submit : skel_WorkerPool_Submit =
+    ["call w.IsRunning", "if{", "if{", "}if", "return", "}if", "call w.increasePendingTasks",
+     "call w.Queue.Push"] := by decide
+
+theorem C16_skeleton_WorkerPool_IsRunning : skel_WorkerPool_IsRunning =
+    ["rlock w.mutex", "defer runlock w.mutex", "return"] := by decide
+
+theorem C16_skeleton_WorkerPool_Shutdown : skel_WorkerPool_Shutdown =
+    ["lock w.mutex", "defer unlock w.mutex", "if{", "for{", "send w.shutdownSignal", "}for",
+     "call w.Queue.SignalShutdown", "}if", "return"] := by decide
+
+theorem C16_skeleton_WorkerPool_dispatcher : skel_WorkerPool_dispatcher =
+    ["for{", "call w.IsRunning", "call w.Queue.Size", "call w.Queue.PopOrWait", "if{",
+     "send w.dispatcherChan", "}if", "}for", "call w.PendingTasksCounter.WaitIsZero", "close w.dispatcherChan"] := by decide
+
+theorem C16_skeleton_WorkerPool_startDispatcher : skel_WorkerPool_startDispatcher =
+    ["go", "helper dispatcher"] := by decide
+
+theorem C16_skeleton_WorkerPool_startWorkers : skel_WorkerPool_startWorkers =
+    ["for{", "call w.ShutdownComplete.Add", "go", "helper worker", "}for"] := by decide
+
+theorem C16_skeleton_WorkerPool_worker : skel_WorkerPool_worker =
+    ["defer call w.ShutdownComplete.Done", "helper workerReadLoop", "helper handleShutdown"] := by decide
+
+theorem C16_skeleton_WorkerPool_workerReadLoop : skel_WorkerPool_workerReadLoop =
+    ["for{", "select{", "case recv w.shutdownSignal", "return", "default", "select{",
+     "case recv w.shutdownSignal", "return", "case recv w.dispatcherChan", "if{", "return", "}if",
+     "call element.run", "}select", "}select", "}for"] := by decide
+
+theorem C16_skeleton_WorkerPool_handleShutdown : skel_WorkerPool_handleShutdown =
+    ["recv w.dispatcherChan", "for{", "if{", "call task.markDone", "}else{", "call task.run", "}if",
+     "recv w.dispatcherChan", "}for"] := by decide
+
+theorem C16_skeleton_Task_run : skel_Task_run =
+    ["if{", "go", "}if", "call t.workerFunc", "call t.markDone"] := by decide
+
+theorem C16_skeleton_Task_markDone : skel_Task_markDone =
+    ["close t.doneChan", "call t.doneCallback"] := by decide
+
+theorem C16_skeleton_Stack_Push : skel_Stack_Push =
+    ["lock b.mutex", "unlock b.mutex", "call b.elementAdded.Broadcast"] := by decide
+
+theorem C16_skeleton_Stack_PopOrWait : skel_Stack_PopOrWait =
+    ["defer func{", "if{", "call b.elementRemoved.Broadcast", "}if", "}func", "lock b.mutex",
+     "defer unlock b.mutex", "for{", "if{", "return", "}if", "call b.elementAdded.Wait", "}for", "return"] := by decide
+
+theorem C16_skeleton_Stack_Size : skel_Stack_Size =
+    ["rlock b.mutex", "defer runlock b.mutex", "return"] := by decide
+
+theorem C16_skeleton_Stack_SignalShutdown : skel_Stack_SignalShutdown =
+    ["call b.elementAdded.Broadcast"] := by decide
+
+theorem C16_skeleton_Counter_Update : skel_Counter_Update =
+    ["helper update", "if{", "call c.valueIncreasedCond.Broadcast", "}else{", "if{",
+     "call c.valueDecreasedCond.Broadcast", "}if", "}if", "return"] := by decide
+
+theorem C16_skeleton_Counter_update : skel_Counter_update =
+    ["lock c.valueMutex", "defer unlock c.valueMutex", "if{", "call c.notifySubscribers", "}if", "return"] := by decide
+
+theorem C16_skeleton_Counter_WaitIsBelow : skel_Counter_WaitIsBelow =
+    ["lock c.valueMutex", "defer unlock c.valueMutex", "for{", "call c.valueDecreasedCond.Wait", "}for"] := by decide
+
+theorem C16_skeleton_Group_CreatePool : skel_Group_CreatePool =
+    ["func{", "if{", "call g.PendingChildrenCounter.Increase", "}else{", "if{",
+     "call g.PendingChildrenCounter.Decrease", "}if", "}if", "}func",
+     "call pool.PendingTasksCounter.Subscribe", "call previousPool.IsRunning", "if{", "}if", "helper Start",
+     "return"] := by decide
+
+theorem C16_skeleton_Group_CreateGroup : skel_Group_CreateGroup =
+    ["func{", "if{", "call g.PendingChildrenCounter.Increase", "}else{", "if{",
+     "call g.PendingChildrenCounter.Decrease", "}if", "}if", "}func",
+     "call group.PendingChildrenCounter.Subscribe", "if{", "}if", "return"] := by decide
+
+theorem C16_skeleton_Group_WaitChildren : skel_Group_WaitChildren =
+    ["call g.PendingChildrenCounter.WaitIsZero"] := by decide
+
+end Hive.WP
